@@ -3,6 +3,7 @@ import Std.Data.HashMap
 import Ucfg.Spec.C20
 import Ucfg.Spec.C17
 import Ucfg.Spec.C01
+import Ucfg.Model.Ops
 /-
   ucfgdrv: reads one protocol case per line on stdin, runs the Lean model's
   executable definitions on it and prints one JSON result line.
@@ -308,12 +309,91 @@ def mergeOracle (c : Json) : R (Option Json) := do
               pure (some okOracle)
             else pure (some (failOracle "merged data differs from the merge specification"))
 
+def parsePrimJ (j : Json) : R Prim := do
+  match ← parseGoData j with
+  | .nil => pure .nil
+  | .bool b => pure (.bool b)
+  | .int i => pure (.int i)
+  | .uint n => pure (.uint n)
+  | .float f => pure (.float f)
+  | .str s => pure (.str s)
+  | _ => throw "not a primitive"
+
+def intField (j : Json) (k : String) (d : Int) : Int :=
+  match optField j k with
+  | some (.str s) => s.toInt?.getD d
+  | some (.num n) => n.mantissa
+  | _ => d
+
+def natField (j : Json) (k : String) : Nat := (intField j k 0).toNat
+
+def parseOp (j : Json) : R Op := do
+  let op ← strField j "op"
+  let h := natField j "h"
+  let name := strFieldD j "name" ""
+  let idx := intField j "idx" (-1)
+  let o ← parseOpts ((optField j "opts").getD (.arr #[]))
+  match op with
+  | "set" => pure (.set h name idx (← parsePrimJ ((optField j "val").getD .null)) o)
+  | "setchild" =>
+    let d ← parseGoData ((optField j "val").getD .null)
+    let co ← parseOpts ((optField j "copts").getD (.arr #[]))
+    match newFrom co d with
+    | .ok c => pure (.setChild h name idx c o)
+    | _ => throw "setchild source does not normalize"
+  | "remove" => pure (.remove h name idx o)
+  | "merge" => pure (.merge h (← parseGoData ((optField j "from").getD .null)) o)
+  | "child" => pure (.child h name idx o)
+  | "get" =>
+    let k ← match strFieldD j "type" "String" with
+      | "Bool" => pure GetKind.bool | "Int" => pure .int | "Uint" => pure .uint
+      | "Float" => pure .float | "String" => pure .string
+      | t => throw s!"bad getter {t}"
+    pure (.get h k name idx o)
+  | "has" => pure (.has h name idx o)
+  | "count" => pure (.count h name)
+  | "info" => pure (.info h)
+  | _ => throw s!"unknown op {op}"
+
+def opOutJson : OpOut → Json
+  | .unit => .null
+  | .bool b => .mkObj [("b", .bool b)]
+  | .int i => .mkObj [("i", .str (toString i))]
+  | .uint n => .mkObj [("u", .str (toString n))]
+  | .float f => .mkObj [("f", .str (toHex16 f))]
+  | .str s => .mkObj [("s", .str s)]
+  | .handle k => .mkObj [("h", .num k)]
+  | .info d a fs => .mkObj [("isDict", .bool d), ("isArray", .bool a), ("fields", .arr (fs.map Json.str).toArray)]
+
+/-- "ops": an operation history on one root config, observed after every step -/
+def runOpsCase (std : Stdlib) (c : Json) : R Json := do
+  let o ← getOpts c "optsInit"
+  let d ← parseGoData ((optField c "init").getD (.mkObj [("m", .arr #[])]))
+  match newFrom o d with
+  | .ok root =>
+    let ops := match optField c "ops" with
+      | some (.arr s) => s.toList
+      | _ => []
+    let rec go (s : OpState) (acc : Array Json) : List Json → R (OpState × Array Json)
+      | [] => pure (s, acc)
+      | j :: rest => do
+        let op ← parseOp j
+        let (out, s') := opStep std s op
+        go s' (acc.push (Json.mkObj [("r", outcomeJson opOutJson out), ("root", viewOnly s'.root)])) rest
+    let (s, steps) ← go (OpState.init root) #[] ops
+    let hv := (if boolFieldD c "cmpHandles" false then s.handles else []).map (fun p => match nodeAt s.root p with
+      | some n => viewOnly n
+      | none => Json.mkObj [("err", errJson { reason := .other, typed := false, msg := some "MODEL-UNSUPPORTED handle does not address a node" })])
+    pure (Json.mkObj [("init", "ok"), ("steps", .arr steps), ("handles", .arr hv.toArray)])
+  | r => pure (Json.mkObj [("init", outcomeJson (fun _ => Json.null) r)])
+
 def runFull (std : Stdlib) (c : Json) : R (Json × Option Json × Option String) := do
   let k ← strField c "k"
   match k with
   | "key" => do let (m, o) ← runKey c; pure (m, o, none)
   | "json" => runJson std c
   | "merge" => do pure ((← runMerge c), (← mergeOracle c), none)
+  | "ops" => do pure ((← runOpsCase std c), none, none)
   | _ => do pure ((← runCase std c), none, none)
 
 partial def loop (std : Stdlib) (h : IO.FS.Stream) (out : IO.FS.Stream) : IO Unit := do
